@@ -20,4 +20,14 @@ sed "s#=> /repo#=> $REPO#" "$ROOT/go.mod" > "$W/go.mod"
 cp "$REPO/go.sum" "$W/go.sum"
 go build -modfile="$W/go.mod" -tags verif -overlay "$W/inst/overlay.json" -o "$W/vcheck" ./cmd/vcheck \
   || { echo "HARNESS-ERROR build against $REPO failed"; exit 2; }
+if [ "${1:-}" = "C18" ] && [ "${2:-quick}" = "thorough" ]; then
+  # separate free-running pass: real sync, un-instrumented seat manager, Go race detector
+  if go build -race -modfile="$W/go.mod" -o "$W/racepass" ./cmd/racepass >"$W/race.log" 2>&1; then
+    GORACE="halt_on_error=0 exitcode=66" "$W/racepass" 300 >>"$W/race.log" 2>&1
+    export VERIF_RACE_EXIT=$?
+  else
+    export VERIF_RACE_EXIT=buildfail
+  fi
+  export VERIF_RACE_LOG="$W/race.log"
+fi
 VERIF_ROOT="${VERIF_OUT:-$ROOT}" VERIF_REPO="$REPO" "$W/vcheck" "$@"
